@@ -130,6 +130,9 @@ def check_layout(tag, layout, bounds, mat, shape):
 SCHED = (
     # (name, schedule dims, operand rank)
     [dict(n=n, rank=r, tiled=t, bits=b, sd=sd) for n in (1, 2, 3) for r in (1, 2) for t in (False, True) for b, sd in ((8, 0), (32, 1), (16, 2)) if sd <= n]
+    # three loops on one dimension with the two inner bounds fixed: the coverage obligation (a product of three tile
+    # bounds) stays linear and is decided; the fully symbolic three-loop shapes are left to the thorough tier
+    + [dict(n=3, rank=1, tiled=True, bits=8, sd=0, inner=i) for i in ((2, 2), (2, 3), (3, 2), (4, 2))]
 )
 
 
@@ -138,8 +141,8 @@ class AddCyclicMemoryLayout_contract:
     """the layout chosen for every operand is one-to-one and covers exactly the operand shape"""
     target = "snaxc.transforms.set_memory_layout.AddCyclicMemoryLayout.match_and_rewrite"
     shapes = SCHED
-    # quick: up to two loops, plus ONE three-loop shape (three tile levels on one dimension, ~100 s on one core)
-    quick = lambda sh: sh["n"] <= 2 or (sh["rank"] == 1 and sh["tiled"] and sh["sd"] == 0)
+    # quick: up to two loops, plus three-loop shapes with fixed inner bounds
+    quick = lambda sh: sh["n"] <= 2 or "inner" in sh
     total = True
     compare_ret = False
     modular = {"snaxc.transforms.set_memory_layout.spatial_dims": spatial_dims_contract,
@@ -149,6 +152,8 @@ class AddCyclicMemoryLayout_contract:
         n, r = sh["n"], sh["rank"]
         G["sd"] = sh["sd"]
         bounds = [sym.int(f"B{j}", 1) for j in range(n)]
+        if "inner" in sh:
+            bounds = [bounds[0], sh["inner"][0], sh["inner"][1]]
         mat = [[sym.int(f"A{d}_{j}", 0) for j in range(n)] for d in range(r)]
         shape = [sym.int(f"N{d}", 1) for d in range(r)]
         return [bounds, mat, shape]
